@@ -119,7 +119,8 @@ def stage(profile, worker_prop, scale=1.0, **kw):
 
 PLANS = {
 }
-for _p in ("C01", "C02", "C03", "C04", "C05", "C06", "C07", "C08", "C09", "C10", "C11", "C12", "C13", "C14", "C16", "C20"):
+PLANS["C17"] = [stage("dbg", "C17"), stage("rel", "C17")]
+for _p in ("C01", "C02", "C03", "C04", "C05", "C06", "C07", "C08", "C09", "C10", "C11", "C12", "C13", "C14", "C15", "C16", "C20"):
     PLANS[_p] = [stage("dbg", _p)]
 
 LEVEL_TEXT = {}
@@ -132,35 +133,86 @@ def run_worker_stage(binary, st, prop, tier, seed, outdir):
     budget = QUICK_BUDGET if tier == "quick" else THOROUGH_BUDGET
     nshards = NPROC
 
+    crash_violations = []
+
+    def limits():
+        # address-space cap: an allocation blow-up becomes an abort of this
+        # worker instead of exhausting the machine
+        if st["profile"] not in ("asan", "tsan"):
+            import resource
+            cap = int(st.get("mem_gb", 8)) * (1 << 30)
+            resource.setrlimit(resource.RLIMIT_AS, (cap, cap))
+
     def one(i):
         out = os.path.join(outdir, f"{prop}-{st['profile']}-{st['prop']}-{i}.json")
-        if os.path.exists(out):
-            os.remove(out)
-        cmd = [binary, "worker", "--prop", st["prop"], "--tier", tier,
-               "--seed", str(seed), "--shard", str(i), "--nshards", str(nshards),
-               "--budget-secs", str(budget), "--out", out,
-               "--replay-dir", REPLAYS, "--known", KNOWN_FILE]
+        prog = out + ".progress"
+        skip = []
+        base = [binary, "worker", "--prop", st["prop"], "--tier", tier,
+                "--seed", str(seed), "--shard", str(i), "--nshards", str(nshards),
+                "--replay-dir", REPLAYS, "--known", KNOWN_FILE]
         if "cases" in st:
-            cmd += ["--cases", str(st["cases"][tier])]
+            base += ["--cases", str(st["cases"][tier])]
         env = dict(BASE_ENV)
         env.update(st.get("env", {}))
-        try:
-            p = subprocess.run(cmd, capture_output=True, text=True, env=env,
-                               timeout=budget * 4 + 600)
-        except subprocess.TimeoutExpired:
-            return None, f"shard {i}: watchdog timeout (inconclusive)"
-        if p.returncode != 0 or not os.path.exists(out):
-            return None, (f"shard {i}: worker exit {p.returncode}: "
-                          + (p.stderr or p.stdout)[-1500:])
-        try:
-            return json.load(open(out)), None
-        except Exception as e:  # noqa: BLE001
-            return None, f"shard {i}: unreadable summary: {e}"
+        for attempt in range(6):
+            for f in (out, prog):
+                if os.path.exists(f):
+                    os.remove(f)
+            cmd = base + ["--budget-secs", str(budget), "--out", out, "--progress", prog]
+            if skip:
+                cmd += ["--skip", ",".join(map(str, skip))]
+            try:
+                p = subprocess.run(cmd, capture_output=True, text=True, env=env,
+                                   timeout=budget * 4 + 600, preexec_fn=limits)
+            except subprocess.TimeoutExpired:
+                # which case was running?
+                idx = open(prog).read().strip() if os.path.exists(prog) else "?"
+                return None, f"shard {i}: watchdog timeout while running case {idx} (inconclusive)"
+            if p.returncode == 0 and os.path.exists(out):
+                try:
+                    return json.load(open(out)), None
+                except Exception as e:  # noqa: BLE001
+                    return None, f"shard {i}: unreadable summary: {e}"
+            # the worker died: find the case, confirm it alone, skip it, go on
+            if not os.path.exists(prog):
+                return None, (f"shard {i}: worker exit {p.returncode} before the first case: "
+                              + (p.stderr or p.stdout)[-1500:])
+            idx = int(open(prog).read().strip() or "0")
+            os.makedirs(REPLAYS, exist_ok=True)
+            rp = os.path.join(REPLAYS, f"{prop}-crash-{st['profile']}-s{seed}-{i}-{idx}.json")
+            subprocess.run(base + ["--only", str(idx), "--dump", rp], capture_output=True,
+                           text=True, env=env, timeout=600)
+            if not os.path.exists(rp):
+                return None, f"shard {i}: worker died at case {idx} and the case could not be dumped"
+            try:
+                c = subprocess.run([binary, "replay", rp], capture_output=True, text=True, env=env,
+                                   timeout=900, preexec_fn=limits)
+                died = c.returncode not in (0, 1, 2)
+                tail = (c.stderr or "")[-600:]
+            except subprocess.TimeoutExpired:
+                died, tail = True, "no result within 900 s when run alone (hang)"
+            if died:
+                doc = json.load(open(rp))
+                doc["profile"] = st["profile"]
+                doc["detail"] = (f"worker process died (exit {p.returncode}) on this case and dies again "
+                                 f"when the case is run alone (exit {c.returncode if 'c' in dir() else '?'}): {tail}")
+                json.dump(doc, open(rp, "w"), indent=1)
+                crash_violations.append({"clause": "crash", "detail": doc["detail"], "replay": rp,
+                                         "case_index": idx})
+            else:
+                log(f"[{prop}] shard {i}: worker died at case {idx} (exit {p.returncode}) but the case "
+                    f"passes alone; treated as infrastructure noise")
+            skip.append(idx)
+        return None, f"shard {i}: worker keeps dying (cases {skip})"
 
     with ThreadPoolExecutor(max_workers=nshards) as ex:
         results = list(ex.map(one, range(nshards)))
     sums = [r[0] for r in results if r[0] is not None]
     errs = [r[1] for r in results if r[1] is not None]
+    if crash_violations:
+        sums.append({"cases": 0, "nontrivial_fps": [], "classes": {}, "counters": {"crashing_cases": len(crash_violations)},
+                     "violations": crash_violations, "known_hits": {}, "samples": [], "inconclusive": [],
+                     "early_stop": False})
     return sums, errs
 
 
